@@ -140,7 +140,8 @@ def make_guard(policy: dict, cfg: dict, events: list, rel_calls: list | None = N
         kw["obligation_checker"] = FixedChecker(ck, amode)
     rs = cfg.get("resolver")
     if rs is not None:
-        kw["role_resolver"] = FixedResolver(rs, amode)
+        # an object with `.expand` (e.g. the real StaticRoleResolver, props/c18.py) is used as is
+        kw["role_resolver"] = rs if hasattr(rs, "expand") else FixedResolver(rs, amode)
     rel = cfg.get("rel")
     if rel is not None:
         kw["relationship_checker"] = TableRel(rel["table"], rel.get("default"), rel_calls if rel_calls is not None else [], amode)
